@@ -3,11 +3,59 @@ from replay.common import main
 from replay import instr
 
 
+def run_ao_meta(sc):
+    """an active object that subscribes / publishes before it is started: those requests are handled by its top state
+    in steps of their own, which are not transitions"""
+    import time
+    from miros.activeobject import ActiveObject
+    from miros.hsm import spy_on
+    from miros.event import signals, Event, return_status
+
+    @spy_on
+    def only(chart, e):
+        if e.signal in (signals.ENTRY_SIGNAL, signals.INIT_SIGNAL, signals.EXIT_SIGNAL):
+            return return_status.HANDLED
+        chart.temp.fun = chart.top
+        return return_status.SUPER
+    ao = ActiveObject('c20meta')
+    try:
+        if sc['what'] in ('subscribe', 'both'):
+            ao.subscribe(Event(signal='C20_NEWS'))
+        if sc['what'] in ('publish', 'both'):
+            ao.publish(Event(signal='C20_OTHER'))
+        ao.start_at(only)
+        time.sleep(0.25)
+        got = [(t.start_state, t.signal, t.end_state) for t in ao.full.trace]
+        if got != [('top', None, 'only')]:
+            return False, 'requests made before start_at (%s) left the trace %s, expected only the start record' % (
+                sc['what'], got), 'trace'
+        return True, ''
+    finally:
+        try:
+            ao.stop()
+        except Exception:
+            pass
+
+
 def scenarios(seed, tier, failed):
-    return instr.scenarios(seed, tier, failed, live=('C20' == 'C21'))
+    for what in ('subscribe', 'publish', 'both'):
+        yield {'kind': 'ao-meta', 'what': what, 'timeout': 20}
+    # long runs: more lines / records than the ring buffers hold, also after clear_spy() / clear_trace()
+    for clear in (False, True):
+        yield {'kind': 'chart', 'parent': [-1, 0, 0], 'init': [None, None, None], 'start': 1, 'host': 'HsmWithQueues',
+               'react': {'0': {'S2': ['handled', None]}, '1': {'S0': ['tran', 2], 'S1': ['handled', None]}, '2': {'S0': ['tran', 1]}},
+               'events': (['S0'] * 5 + ['S1', 'S2']) * 110, 'spy': True, 'live_spy': False, 'live_trace': False,
+               'coarse_clock': False, 'exit_handled': [True] * 3, 'entry_handled': [True] * 3, 'timeout': 90,
+               'clear_after_start': clear}
+    for k, sc in enumerate(instr.scenarios(seed, tier, failed, live=False)):
+        if k % 5 == 2:
+            sc['post_before_start'] = True
+        yield sc
 
 
 def run(sc):
+    if sc.get('kind') == 'ao-meta':
+        return run_ao_meta(sc)
     return instr.run_c20(sc)
 
 
